@@ -21,11 +21,18 @@ def gen_cases(ctx, T, maxfiles, maxdur, nsample, seed):
     return cases
 
 
-def do_match(fa, ta, fb, tb, emb, s, e, I):
+def interval_spelling(td, sp):
+    """The same max_interval as a timedelta, as a number of seconds of several numeric types, and as a string."""
+    import numpy as np
+    secs = td.total_seconds()
+    return [td, int(secs), float(secs), np.int64(secs), np.float64(secs), "%d s" % secs, np.int32(secs)][sp % 7]
+
+
+def do_match(fa, ta, fb, tb, emb, s, e, I, sp=0):
     from typhon.files.fileset import NoFilesError
     try:
         out = []
-        for p, gs in fa.match(fb, emb.t(s), emb.t(e), max_interval=I * emb.unit if I is not None else None):
+        for p, gs in fa.match(fb, emb.t(s), emb.t(e), max_interval=interval_spelling(I * emb.unit, sp) if I is not None else None):
             out.append([ta.ids([p])[0], tb.ids(gs)])
         return out
     except NoFilesError:
@@ -45,12 +52,13 @@ def replay_pair(col, item):
     times = {f[0]: (f[1], f[2]) for f in case["F"] + case["G"]}
     try:
         fa, fb = ta.fileset(), tb.fileset()
-        for s, e, I, pairs, nP, nG in case["rows"]:
+        for rown, (s, e, I, pairs, nP, nG) in enumerate(case["rows"]):
+            sp = rown + len(case["F"]) + 3 * len(case["G"])
             exp = sorted((p, sorted(gs)) for p, gs in pairs)
             rep = {"abstract": {"F": case["F"], "G": case["G"], "s": s, "e": e, "I": I},
-                   "concrete": {"embedding": emb_name, "layouts": [layout_a, layout_b]}, "expected": exp}
+                   "concrete": {"embedding": emb_name, "layouts": [layout_a, layout_b], "max_interval_spelling": sp % 7}, "expected": exp}
             try:
-                got = do_match(fa, ta, fb, tb, emb, s, e, I)
+                got = do_match(fa, ta, fb, tb, emb, s, e, I, sp)
             except Exception as ex:
                 col.violation("match-raises-" + type(ex).__name__, dict(rep, observed=repr(ex)))
                 continue
